@@ -49,6 +49,8 @@ def ws2dwcv(y, nodata, llas, robust, out, lopt):
     d_eigs[0] = 1e-15
 
     if n > 4:
+        # missing cells carry zero weight: keep NaN/inf out of the solver and the scores
+        yv = np.where(w > 0, y, 0.0)
         z = np.zeros(m)
         r_weights = np.ones(m)
 
@@ -70,11 +72,11 @@ def ws2dwcv(y, nodata, llas, robust, out, lopt):
 
             w_temp = w * r_weights
             for s in lambda_range:
-                z = ws2d(y, s, w_temp)
+                z = ws2d(yv, s, w_temp)
 
                 gamma = w_temp / (w_temp + s * ((-1 * d_eigs) ** 2))
                 tr_H = gamma.sum()
-                wsse = (((w_temp**0.5) * (y - z)) ** 2).sum()
+                wsse = (((w_temp**0.5) * (yv - z)) ** 2).sum()
                 denominator = w_temp.sum() * (1 - (tr_H / (w_temp.sum()))) ** 2
                 gcv_score = wsse / denominator
 
@@ -89,7 +91,7 @@ def ws2dwcv(y, nodata, llas, robust, out, lopt):
 
             if robust:
                 gamma = w_temp / (w_temp + s * ((-1 * d_eigs) ** 2))
-                r_arr = y - y_temp
+                r_arr = yv - y_temp
 
                 mad = np.median(
                     np.abs(r_arr[r_weights != 0] - np.median(r_arr[r_weights != 0]))
@@ -113,7 +115,7 @@ def ws2dwcv(y, nodata, llas, robust, out, lopt):
             lopt[0] = robust_gcv[0, 1]
 
         z[:] = 0.0
-        z = ws2d(y, lopt[0], robust_weights)
+        z = ws2d(yv, lopt[0], robust_weights)
         np.round(z, 0, out)
 
     else:
